@@ -218,6 +218,18 @@ Theorem C13_gen_shortcuts :
 Proof. exact gen_runner_parallelCheck_shortcuts. Qed.
 Print Assumptions C13_gen_shortcuts.
 
+(* util.Unflatten, one turn of the loop: the group is b[i : i+size], cut at len(b) when that overshoots - the model's firstn size of what is left *)
+Theorem C13_gen_unflatten_group :
+  forall (A : Type) (b : list A) (i size : nat), (i < length b)%nat ->
+  firstn size (skipn i b) =
+  match g_unflatten_body (Z.of_nat (i + size)) (Z.of_nat (length b)) with
+  | ([1; 2], Fall) => slice b i (length b)
+  | ([2], Fall) => slice b i (i + size)
+  | _ => []
+  end.
+Proof. exact gen_unflatten_body. Qed.
+Print Assumptions C13_gen_unflatten_group.
+
 End GenTie.
 
 (* Non-vacuity: 12 payloads, the first one cached from an earlier call; two batches (10 + 1), the
